@@ -9,6 +9,8 @@
 #include <tapkee/utils/time.hpp>
 /* End of Tapkee includes */
 
+#include <limits>
+
 namespace tapkee
 {
 namespace tapkee_internal
@@ -46,8 +48,17 @@ DenseMatrix triangulate(RandomAccessIterator begin, RandomAccessIterator end, Pa
         embedding.row(landmarks[index_iter]).noalias() = landmarks_embedding.first.row(index_iter);
     }
 
+    // pseudo-inverse: an eigenvalue that vanishes (data of lower intrinsic dimension than target_dimension) says
+    // nothing about the other samples; dividing by it would only amplify rounding noise (or give NaN)
+    const ScalarType eigenvalue_tolerance = n_landmarks * std::numeric_limits<ScalarType>::epsilon() *
+                                            landmarks_embedding.second.cwiseAbs().maxCoeff();
     for (IndexType i = 0; i < target_dimension; ++i)
-        landmarks_embedding.first.col(i).array() /= landmarks_embedding.second(i);
+    {
+        if (landmarks_embedding.second(i) > eigenvalue_tolerance)
+            landmarks_embedding.first.col(i).array() /= landmarks_embedding.second(i);
+        else
+            landmarks_embedding.first.col(i).setZero();
+    }
 
 #pragma omp parallel
     {
